@@ -207,6 +207,8 @@ HARNESSES = [
                     'max_proc': 2},
                    {'files': 2, 'cells': 1, 'genes': 2, 'clusters': 1,
                     'max_proc': 1, 'perm_genes': True},
+                   {'files': 2, 'cells': 1, 'genes': 1, 'clusters': 1,
+                    'max_proc': 2, 'copy_data_over': True},
                    {'cells': 2, 'genes': 2, 'clusters': 1,
                     'normalization': 'raw', 'max_proc': 2},
                    {'cells': 2, 'genes': 1, 'clusters': 2, 'enc': 'csr',
